@@ -62,20 +62,7 @@ def r1(ctx):
                         "`%s`, not against %s.getDefault()" % (holder, text(d), holder))
     ctx.floor("C12.R1", n, 4, "Payload.isEmpty decision sites")
     f = ctx.method("Payload", "isEmpty")
-    src = "\n".join(text(s) for s in f.body).replace(" ", "")
-    fib = "returnp.isEmpty()" in src
-    leaf = False
-    for n_ in f.own_nodes():
-        if isinstance(n_, ast.If):
-            p = pat.cmp_raw(n_.test)
-            if p and p[0] == "==" and {p[1], p[2]} == {"p", "default"} and \
-                    any(isinstance(b, ast.Return) and text(b.value) == "True"
-                        for b in n_.body):
-                leaf = True
-        if isinstance(n_, ast.Return) and isinstance(n_.value, ast.Compare):
-            p = pat.cmp_raw(n_.value)
-            if p and p[0] == "==" and {p[1], p[2]} == {"p", "default"}:
-                leaf = True
+    fib, leaf = _isempty_by_cases(ctx, f)
     if fib and leaf:
         ctx.ok("C12.R1", f, f.node, "fiber -> isEmpty(), leaf -> == default",
                text_="def isEmpty(p, default=0)")
@@ -83,6 +70,46 @@ def r1(ctx):
         ctx.bad("C12.R1", f, f.node, "Payload.isEmpty is no longer `a fiber is "
                 "empty iff fiber.isEmpty(); a leaf iff p == default`",
                 text_="def isEmpty(p, default=0)")
+
+
+def _isempty_by_cases(ctx, f):
+    """Payload.isEmpty(p, default) read case by case (sa/symcase.py): for a
+    fiber it returns p.isEmpty(); for a leaf a true value exactly when
+    p == default.  Indifferent to early returns / single exit / temporaries
+    / conditional expressions."""
+    from .. import symcase
+    from ..symcase import norm
+    P = f.params[0] if f.params else "p"
+    D = f.params[1] if len(f.params) > 1 else "default"
+
+    def decider(is_fiber, equal):
+        def decide(t):
+            if isinstance(t, ast.UnaryOp) and isinstance(t.op, ast.Not):
+                d = decide(t.operand)
+                return None if d is None else not d
+            tt = norm(t)
+            if tt in ("type(%s).__name__=='Fiber'" % P, "'Fiber'==type(%s).__name__" % P,
+                      "isinstance(%s,Fiber)" % P):
+                return is_fiber
+            if tt in ("%s==%s" % (P, D), "%s==%s" % (D, P)):
+                return equal
+            if tt in ("%s!=%s" % (P, D), "%s!=%s" % (D, P)):
+                return None if equal is None else not equal
+            return None
+        return decide
+
+    def terms(is_fiber, equal):
+        outs = symcase.Evaluator(ctx, decider(is_fiber, equal)).run(f)
+        if not outs or any(o.opaque or not o.returned or o.stores for o in outs):
+            return None
+        return {norm(o.ret) for o in outs}
+    fib = terms(True, None) == {"%s.isEmpty()" % P}
+    eq_terms = ("%s==%s" % (P, D), "%s==%s" % (D, P))
+    t_eq, t_ne = terms(False, True), terms(False, False)
+    leaf = t_eq is not None and t_ne is not None and \
+        all(x == "True" or x in eq_terms for x in t_eq) and \
+        all(x == "False" or x in eq_terms for x in t_ne)
+    return fib, leaf
 
 
 def _holder(ctx, f, arg):
@@ -170,7 +197,7 @@ def r2(ctx):
             if not (isinstance(st, ast.AugAssign) and text(st.target) == cvar
                     and isinstance(st.op, ast.Add)):
                 other += 1
-            elif g == fib and text(v).replace(" ", "") in (
+            elif g == fib and pat.inline(ctx, f, v).replace(" ", "") in (
                     "Payload.get(%s).countValues()" % p, "%s.countValues()" % p):
                 rec += 1
             elif g == {notfib, nonempty} and text(v) == "1":
@@ -207,11 +234,12 @@ def r2(ctx):
     f = ctx.method("Fiber", "isEmpty")
     rets = pat.returns(f)
     good = False
-    for r in rets:
-        s = text(r.value).replace(" ", "")
-        if s.startswith("all(") and "self.payloads" in s and \
-                "Payload.isEmpty(" in s:
-            good = True
+    fa_ = pat.forall_form(ctx, f)
+    if fa_ is not None:
+        it, var, pred, pol, _n = fa_
+        good = pol and text(it).replace(" ", "") == "self.payloads" and \
+            text(pred).replace(" ", "") == \
+            "Payload.isEmpty(%s,default=self.getDefault())" % var
     if good:
         ctx.ok("C12.R2", f, rets[0], "isEmpty is all(...) over the raw payloads")
     else:
@@ -340,11 +368,11 @@ def r3(ctx):
     rejects = []
     for r in pat.returns(f):
         if text(r.value) == "False" and r in list(_walk(lp.body)):
-            g_ = {pat.catom(ctx, f, t, pol, False) for t, pol in atomic_guards(r, stop=lp)}
-            # `mask != <other literal>` atoms are implied by the chain position
-            core = {a for a in g_ if not (a[0] == "!=" and mask in a[1:] and
-                                          any(x.startswith("'") for x in a[1:]))}
-            rejects.append((core, r))
+            for g_ in pat.guard_dnf(ctx, f, r, stop=lp) or []:
+                # `mask != <other literal>` atoms are implied by the chain position
+                core = {a for a in g_ if not (a[0] == "!=" and mask in a[1:] and
+                                              any(x.startswith("'") for x in a[1:]))}
+                rejects.append((core, r))
     need = [
         ([{pat.A("==", mask, "'A'")}], "an element only in self"),
         ([{pat.A("==", mask, "'B'")}], "an element only in other"),
